@@ -86,14 +86,21 @@ def showRouteOut : RouteOut → String
   | .records rs => showEntries "recs" (rs.map numEt)
   | .features fs => showEntries "feats" (fs.map numFeat)
   | .wkt l => joinSp ["wkt", nums (numLine l)]
-  | .wkb l => joinSp ["wkb", nums (numLine l)]
+  | .wkb l s => joinSp ["wkb", nums (numLine l), "hex", s]
 
 def showTreeOut : TreeOut → String
   | .edgeIds ids => showSorted "ids" (ids.map fun i => [i])
   | .records bs => showSorted "recs" (bs.map numBranch)
   | .features fs => showSorted "feats" (fs.map numFeat)
   | .wkt ls => showSorted "wkt" (ls.map numLine)
-  | .wkb ls => showSorted "wkb" (ls.map numLine)
+  | .wkb ls s =>
+    -- the text in canonical member order: 18 header characters, then the member records sorted as strings
+    let cs := s.toList
+    let rec chunks (cs : List Char) : List Line → List String
+      | [] => if cs.isEmpty then [] else [String.ofList cs]
+      | l :: r => let n := 2 * (9 + 16 * l.length); String.ofList (cs.take n) :: chunks (cs.drop n) r
+    let members := (chunks (cs.drop 18) ls).mergeSort (fun a b => decide (a ≤ b))
+    joinSp ([showSorted "wkb" (ls.map numLine), "hex", String.ofList (cs.take 18)] ++ members)
 
 def showRes {α : Type} (f : α → String) : Except Err α → String
   | .ok a => "ok " ++ f a
